@@ -28,9 +28,9 @@ Wild(t) == Len(t) >= 1 /\ SubSeq(t, 1, 1) = "*"
 Clause ==
     LET s == Sig(T.ins, T.top, T.n)
         exp == Rev(s.push)
-    IN IF T.trap \in MachineFaults THEN "fault-trap"
+    IN IF T.trapseen \in MachineFaults THEN "fault-trap"
        ELSE IF T.bnd /\ fr # <<>> /\ T.ins.b # "frame" /\ T.d0 # fr[Len(fr)][1] + fr[Len(fr)][2] THEN "boundary-depth"
-       ELSE IF T.trap # "" THEN ""                 \* a source-level trap: the instruction did not complete
+       ELSE IF T.trapseen # "" THEN ""             \* a source-level trap (fatal or handled): the instruction did not complete
        ELSE IF ~s.ok THEN "operand-type"
        ELSE IF T.d1 # T.d0 - s.pops + Len(s.push) /\ ~(Len(s.push) = 1 /\ s.push[1] = "*input") THEN "stack-effect"
        ELSE IF \E i \in 1..Len(exp) : ~Wild(exp[i]) /\ (i > Len(T.after) \/ T.after[i] # exp[i]) THEN "result-type"
@@ -40,7 +40,10 @@ Clause ==
 
 \* bookkeeping of frames and GOSUBs
 NextFr ==
-    IF T.trap # "" THEN fr
+    IF T.trapseen # "" THEN
+         \* a trap handled by ON ERROR GOTO abandons the activations entered since the handler was
+         \* armed: the recorded number of live frames says how many remain
+         (IF T.handled /\ T.nf < Len(fr) THEN SubSeq(fr, 1, T.nf) ELSE fr)
     ELSE CASE T.ins.b = "frame" -> Append(fr, <<T.d1, 0>>)
            [] T.ins.b \in {"ret", "retv"} -> IF fr = <<>> THEN fr ELSE SubSeq(fr, 1, Len(fr) - 1)
            [] T.ins.b = "call" /\ ~T.callproc /\ fr # <<>> -> [fr EXCEPT ![Len(fr)][2] = @ + 1]
